@@ -31,10 +31,8 @@ func c01Labels(c schedCase, res *schedResult) (nontrivial bool, labels []string)
 		if len(c.Tasks[i].Lanes) >= 2 {
 			multilane = true
 		}
-		for _, m := range h.cnt.failedMsg[i] {
-			if strings.Contains(m, "-undo-") {
-				undofail = true
-			}
+		if h.cnt.failedUndo[i] {
+			undofail = true
 		}
 	}
 	_, may := schedClosures(c, failed)
